@@ -346,4 +346,4 @@ mod test {
 
 #[cfg(kani)]
 #[path = "/verif/kani/omim_disease.rs"]
-mod verif_kani;
+pub(crate) mod verif_kani;
